@@ -25,7 +25,8 @@ func init() {
 			"C13.7 (=C05.5) what is queued for ReadFrom is a private copy of the inbound payload, never a slice of the reusable socket read buffer; " +
 			"C13.8 (=C14.8) a binding is marked refreshed only after a confirmed bind; the read-deadline timer is never replaced.; " +
 			"C13.9 the peer address of an inbound indication is decoded into storage of that one message (a local), never into a pooled or remembered object whose bytes a later message rewrites; " +
-			"C13.10 table keys made from net/netip values are unmapped first, so one peer spelled as 1.2.3.4 and as ::ffff:1.2.3.4 is one key (no instance while the module does not use net/netip).",
+			"C13.10 table keys made from net/netip values are unmapped first, so one peer spelled as 1.2.3.4 and as ::ffff:1.2.3.4 is one key (no instance while the module does not use net/netip); " +
+			"C13.11 UDPConn.Close closes the conn's closeCh on every path except the already-closed one: a failure to send the de-allocating Refresh does not leave blocked readers waiting.",
 		NotCovered: "uniqueness of channel numbers beyond 16384 live peers (the counter wraps), deadline timing, what the server answers.",
 		Run:        runC13,
 	})
@@ -599,6 +600,7 @@ func runC13(c *Ctx) {
 	ruleBindingFreshness(c, "C13.8")
 	ruleInboundAddrStorageFresh(c, "C13.9")
 	ruleNetipUnmapped(c, "C13.10", "client", "turn")
+	ruleCloseAlwaysCloses(c, "C13.11")
 }
 
 // ruleClientNumbers: shared by C08.4 and C13.4.
@@ -1115,5 +1117,73 @@ func ruleNetipUnmapped(c *Ctx, rule string, pkgs ...string) {
 				c.Bad(rule, fname(fn), "netip value", w.instrPos(in), "the netip address taken from a net.IP / net.UDPAddr here is used at "+w.instrPos(at)+" without Unmap(): 1.2.3.4 and ::ffff:1.2.3.4 (the same peer as net.ParseIP or a resolver spells it) become two different keys — one peer is bound or permitted twice, and conflict tests do not see the duplicate")
 			}
 		})
+	}
+}
+
+// ruleCloseAlwaysCloses (C13.11): "ReadFrom honours Close" rests on closeCh being closed by
+// Close — whatever else Close attempts (the de-allocating Refresh may fail to be sent). Every
+// return of UDPConn.Close that is not the already-closed refusal is reached only through
+// close(c.closeCh).
+func ruleCloseAlwaysCloses(c *Ctx, rule string) {
+	w := c.W
+	c.Rule(rule, "Close always closes: every return of (*UDPConn).Close other than `return errAlreadyClosed` is preceded on all paths by close(c.closeCh) (helpers of Close included)", 1)
+	fn := w.Func("client", "UDPConn", "Close")
+	fld := w.Field("client", "UDPConn", "closeCh")
+	c.Anchor(rule, "UDPConn.Close")
+	isClose := func(in ssa.Instruction) bool {
+		call, ok := in.(ssa.CallInstruction)
+		if !ok {
+			return false
+		}
+		if b, isB := call.Common().Value.(*ssa.Builtin); isB && b.Name() == "close" {
+			if _, f, isL := fieldLoad(call.Common().Args[0]); isL && f == fld {
+				return true
+			}
+		}
+		return false
+	}
+	may := w.mayContain(isClose)
+	bad := ""
+	n := 0
+	cfg := &ipCfg[bool]{w: w}
+	cfg.Inline = func(_ ssa.CallInstruction, h *ssa.Function) bool { return w.IsMod[h] && may(h) }
+	cfg.Step = func(in ssa.Instruction, closed bool, _ *pathEnv, _ []ssa.CallInstruction) bool {
+		if isClose(in) {
+			return true
+		}
+		if ci, ok := in.(*ssa.Call); ok && !closed {
+			if body := w.syncCallbackBody(ci); body != nil {
+				w.eachInstr(body, func(i3 ssa.Instruction) {
+					if isClose(i3) {
+						closed = true
+					}
+				})
+			}
+		}
+		return closed
+	}
+	cfg.Return = func(r *ssa.Return, closed bool, env *pathEnv) {
+		n++
+		if closed {
+			return
+		}
+		if len(r.Results) == 1 {
+			if g := globalLoad(env.resolve(w.resolveLoad(r.Results[0]))); g != nil && g.Name() == "errAlreadyClosed" {
+				return
+			}
+		}
+		bad = w.instrPos(r)
+	}
+	explorePaths(cfg, fn, false)
+	if cfg.Exhausted {
+		bad = "(undecided: path exploration exceeded its budget)"
+	}
+	switch {
+	case n == 0:
+		c.Bad(rule, fname(fn), "closeCh", w.pos(fn.Pos()), "Close has no return: anchor gone")
+	case bad != "":
+		c.Bad(rule, fname(fn), "closeCh", w.pos(fn.Pos()), "Close can return at "+bad+" without having closed closeCh: the conn stays open to its readers — a ReadFrom blocked without a deadline is never released, later ones block, WriteTo keeps emitting — although the caller was told to treat it as closed (or told nothing)")
+	default:
+		c.OK(rule, fname(fn), "closeCh", w.pos(fn.Pos()), fmt.Sprintf("%d returns: each is the already-closed refusal or passes close(c.closeCh)", n))
 	}
 }
